@@ -17,6 +17,13 @@ use tracing::{error, info, warn};
 
 static CURRENT_STREAM_ID: AtomicU32 = AtomicU32::new(1);
 
+/// Verification hook (only with `--cfg iggy_verif`): makes an in-process restart start from the
+/// same process-global state as a fresh server process.
+#[cfg(iggy_verif)]
+pub fn verif_reset_process_globals() {
+    CURRENT_STREAM_ID.store(1, Ordering::SeqCst);
+}
+
 impl System {
     pub(crate) async fn load_streams(
         &mut self,
